@@ -29,7 +29,7 @@ PROBES = ['get-readable', 'get-write-only-refused', 'set-writable', 'set-read-on
           'local-assign-silent', 'remote-set-emits', 'same-name-two-interfaces',
           'inherited-property', 'empty-interface-name', 'get-after-remote-set',
           'two-instances-of-one-class', 'exported-on-an-older-connection-first',
-          'properties-declared-on-abstract-class', 'own-interface-has-get-set-getall', 'unencodable-assignment-then-valid-one', 'wrapper-of-another-type-assigned', 'property-holds-an-unencodable-value', 'misdeclared-sibling-rejected-first']
+          'properties-declared-on-abstract-class', 'own-interface-has-get-set-getall', 'unencodable-assignment-then-valid-one', 'wrapper-of-another-type-assigned', 'property-holds-an-unencodable-value', 'set-without-reply', 'misdeclared-sibling-rejected-first']
 COMPONENTS = {
     'real': ['txdbus.objects.DBusProperty / DBusObject (_dbus_PropertyGet/Set/GetAll, '
              'getAllProperties, emitSignal)', 'DBusObjectHandler dispatch',
@@ -264,8 +264,12 @@ def scenario(ctx):
                 ps = 'i'
             ref, _ = gen.prop_value(ds, ps)
             q['value'] = (ps, ref)
+            # (what dbus-send does unless --print-reply is given: no reply wanted)
+            q['noreply'] = ds.flag(0.15)
+            if q['noreply']:
+                sim.probe('set-without-reply')
             m = daemon.call(p, 'Set', PROPS_IFACE, 'ssv', [iname, pn, V(ps, ref)], sender=sender,
-                            dest=rig.bus_name)
+                            dest=rig.bus_name, flags=1 if q['noreply'] else 0)
         else:
             q['kind'] = 'getall'
             m = daemon.call(p, 'GetAll', PROPS_IFACE, 's', [iname], sender=sender,
@@ -443,7 +447,7 @@ def scenario(ctx):
         raise Violation('C17/liveness', 'no quiescence', 'drain did not reach quiescence')
     if rig.conn.a.state == net.OPEN:
         for q in queries:
-            if not q.get('judged'):
+            if not q.get('judged') and not q.get('noreply'):
                 raise Violation('C17/no-reply', q['kind'], '%s on %s got no reply'
                                 % (q['kind'], q['path']))
     check_no_logged_errors(ctx, 'C17')
